@@ -50,11 +50,14 @@ def depth_of(b, kind, tol):
     return b.get("depth_for", {}).get((kind, tol), b["depth"])
 
 
-def impl_cfg(kind, tol, b, *, ref=False, merge=False, inplace=False, collide=False, invariants=True, anymatch=False):
+def impl_cfg(kind, tol, b, *, ref=False, merge=False, inplace=False, collide=False, invariants=True, anymatch=False,
+             selfupd=False, keyafter=False):
     s = (f'CONSTANTS Kind = "{kind}"\n Tol = {tol}\n Scale = {SCALE}\n XV <- {b["lattice"]}\n NZ = {b["nz"]}\n'
          f' Cells = {tla_set(sorted(CELLS0))}\n ZArgs = {tla_set(b["zargs"])}\n MaxDepth = {depth_of(b, kind, tol)}\n'
          f' RefIn = {to_tla(ref)}\n RefOut = {to_tla(ref)}\n SimpleMerge = {to_tla(merge)}\n'
-         f' Inplace = {to_tla(inplace)}\n Collide = {to_tla(collide)}\n LinModes = {tla_set(b["linmodes"])}\n'
+         f' Inplace = {to_tla(inplace)}\n Collide = {to_tla(collide)}\n'
+         f' LinModes = {tla_set([] if selfupd else b["linmodes"])}\n SelfUpd = {to_tla(selfupd)}\n'
+         f' KeyAfterRun = {to_tla(keyafter)}\n'
          f' ExecFlags = {tla_set(b["execflags"])}\n LitXs = {tla_set(b["litxs"])}\n LinZArgs = {tla_set(b["linzargs"])}\n AnyMatch = {to_tla(anymatch)}\n'
          "INIT Init\nNEXT Next\nCONSTRAINT Bound\nCHECK_DEADLOCK FALSE\n")
     if invariants:
@@ -155,7 +158,7 @@ def replay_job(job):
 
     b = job["bounds"]
     kind, tol, inplace = job["kind"], job["tol"], job["inplace"]
-    world = World(LATTICES[b["lattice"]], SCALE, b["nz"])
+    world = World(LATTICES[b["lattice"]], SCALE, b["nz"], fx=job.get("fx"))
     graph = _GRAPHS[job["config"]]  # parsed by the parent before the fork
     work = Path(job["work"])
     full_entries = kind in ("simple", "memLocal") or job["entries_every_step"]
@@ -239,7 +242,7 @@ def _replay_paths(job, graph, world, work, kind, tol, inplace, full_entries, out
                     out["covered"].add(k)
         out["paths"] += 1
         out["differing"] += 1 if drift else 0
-        trace = {"id": tid, "kind": kind, "tol": tol, "inplace": inplace, "labels": labels, "events": events,
+        trace = {"id": tid, "kind": kind, "tol": tol, "flavour": job["flavour"], "labels": labels, "events": events,
                  "drift": drift}
         if drift or n in keep:  # every differing trace, a seeded sample of the conforming ones
             out["traces"].append(trace)
@@ -350,18 +353,25 @@ def run(ck: Check):
     rng = random.Random(ck.seed)
     b = bounds(ck)
     # (kind, tolerance numerator, hash collisions injected)
-    configs = [(k, t, False) for k in KINDS for t in ((0,) if k == "none" else (0, TOLN))]
+    configs = [(k, t, False, False) for k in KINDS for t in ((0,) if k == "none" else (0, TOLN))]
     if ck.thorough:
         # (not the local-memory cache: its known defect D4 is classified with collision-free variant graphs)
-        configs += [(k, t, True) for k in ("memShared", "hdf5") for t in (0, TOLN)]
+        configs += [(k, t, True, False) for k in ("memShared", "hdf5") for t in (0, TOLN)]
     else:
-        configs += [("memShared", 0, True), ("hdf5", TOLN, True)]
+        configs += [("memShared", 0, True, False), ("hdf5", TOLN, True, False)]
     variant_defs = [("memLocal", 0, "byRef", {"ref": True}, (False, True)),
                     ("memLocal", TOLN, "byRef", {"ref": True}, (False, True)),
                     ("simple", TOLN, "simpleMerge", {"merge": True}, (False,))]
 
+    # (kind, tol, False, True): the self-coupled flavour (SDisc: the body updates its input array in place,
+    # x <- FX(x)); every cache kind, execution histories; the caller's cell holds FX(x) after a run, so the
+    # tours contain "feed the output back" (x, FX(x), x) through the same cell, another cell and literals
+    configs += [(k, 0, False, True) for k in KINDS]
+    if ck.thorough:
+        configs += [(k, TOLN, False, True) for k in KINDS if k != "none"]
+
     def name(c):
-        return f"{c[0]}-{c[1]}" + ("-collide" if c[2] else "")
+        return f"{c[0]}-{c[1]}" + ("-collide" if c[2] else "") + ("-selfupd" if c[3] else "")
 
     # ---- 1. TLC.  (a) the clauses alone: satisfiable, not vacuous (the most liberal system);
     #   (b) the implementation-shaped model satisfies every clause, exhaustively within the bounds, and
@@ -373,21 +383,24 @@ def run(ck: Check):
         jobs.add(f"abs-{kind}-{tol}", "DiscCache", abstract_cfg(kind, tol, 5 if ck.thorough else 4), timeout=900,
                  need=("AExecute", "ALinearize", "AMutate"))
     for c in configs:
-        kind, tol, collide = c
-        need = REQUIRED + (("ClearCache",) if kind != "none" else ()) + (("Reopen",) if kind == "hdf5" else ()) \
+        kind, tol, collide, selfupd = c
+        need = (REQUIRED if not selfupd else ("Execute", "ExecuteLit", "MutateCell")) \
+            + (("ClearCache",) if kind != "none" else ()) + (("Reopen",) if kind == "hdf5" else ()) \
             + (("SetCache",) if kind in ("simple", "memShared", "memLocal") else ())
         # (vacuity is checked below on the edge labels of the dumped graph: -coverage slows large runs down)
         needs[c] = need
-        jobs.add(f"impl-{name(c)}", "DiscCacheImpl", impl_cfg(kind, tol, b, collide=collide), coverage=False,
+        jobs.add(f"impl-{name(c)}", "DiscCacheImpl", impl_cfg(kind, tol, b, collide=collide, selfupd=selfupd), coverage=False,
                  timeout=1700, dump=True)
     for kind, tol, vname, kw, flavours in variant_defs:
         for inplace in flavours:
             jobs.add(f"refute-{vname}-{tol}-{inplace}", "DiscCacheImpl",
                      impl_cfg(kind, tol, b, inplace=inplace, invariants="clauses", **kw),
                      expect_ok=False, count=False, coverage=False, timeout=900)
-            jobs.add(f"graph-{vname}-{tol}-{inplace}", "DiscCacheImpl",
-                     impl_cfg(kind, tol, b, inplace=inplace, invariants=False, anymatch=True, **kw),
-                     count=False, coverage=False, timeout=1700, dump=True)
+    # the seeded-change class: entry filed under the self-coupled input as it is after the run
+    for kind in KINDS[1:]:
+        jobs.add(f"refute-keyAfterRun-{kind}", "DiscCacheImpl",
+                 impl_cfg(kind, 0, b, selfupd=True, keyafter=True, invariants="clauses"),
+                 expect_ok=False, count=False, coverage=False, timeout=900)
     t0 = time.time()
     res = jobs.run()
     ck.extra["timing"] = {"tlc_models_s": round(time.time() - t0, 1)}
@@ -400,10 +413,33 @@ def run(ck: Check):
             ck.extra.setdefault("refuted_variants", []).append(
                 {"variant": vname, "kind": kind, "tol": tol, "inplace": inplace, "violates": r.violated,
                  "counterexample": [a.split(" line")[0] for a, _ in r.counterexample()][1:]})
-            vg = slim(Graph(ck.work / f"tlc-graph-{vname}-{tol}-{inplace}" / "DiscCacheImpl.dot"), ("ret",))
-            variants[(kind, tol, inplace)] = (vname, vg, edge_index(vg))
+            variants[(kind, tol, inplace)] = (vname, kw, inplace)
             if len(flavours) == 1:  # the variant does not depend on the discipline flavour
                 variants[(kind, tol, not inplace)] = variants[(kind, tol, inplace)]
+    for kind in KINDS[1:]:
+        r = res[f"refute-keyAfterRun-{kind}"]
+        if not r.violated:
+            raise MachineryError(f"rule keyAfterRun ({kind}) is not refuted by TLC: the self-coupled flavour is vacuous")
+        ck.extra["refuted_variants"].append(
+            {"variant": "keyAfterRun", "kind": kind, "tol": 0, "violates": r.violated,
+             "counterexample": [a.split(" line")[0] for a, _ in r.counterexample()][1:]})
+    variant_graphs = {}
+
+    def variant_graph(kind, tol, flavour):
+        """Graph of the refuted rule of (kind, tol), built on demand (only when a trace violates a clause)."""
+        var = variants.get((kind, tol, flavour == "inplace"))
+        if var is None or flavour == "selfupd":
+            return None
+        vname, kw, inplace = var
+        key = (vname, tol, inplace)
+        if key not in variant_graphs:
+            jobs.add(f"graph-{vname}-{tol}-{inplace}", "DiscCacheImpl",
+                     impl_cfg(kind, tol, b, inplace=inplace, invariants=False, anymatch=True, **kw),
+                     count=False, coverage=False, timeout=1700, dump=True)
+            jobs.run()
+            vg = slim(Graph(ck.work / f"tlc-graph-{vname}-{tol}-{inplace}" / "DiscCacheImpl.dot"), ("ret",))
+            variant_graphs[key] = (vname, vg, edge_index(vg))
+        return variant_graphs[key]
 
     # ---- 2. spec -> code: transition tours executed on the real objects (worker processes).  The workers
     #         return every trace that differs from DiscCacheImpl somewhere and a seeded sample of the others.
@@ -411,7 +447,7 @@ def run(ck: Check):
     n_sample = 10000 if ck.thorough else 1500   # conforming traces kept per (configuration, flavour)
     graphs, rjobs, first_id = {}, [], 1
     for c in configs:
-        kind, tol, collide = c
+        kind, tol, collide, selfupd = c
         g = slim(Graph(ck.work / f"tlc-impl-{name(c)}" / "DiscCacheImpl.dot"), ("ret", "entries"))
         taken = {a for _, _, a, _ in g.edges}
         for a in needs[c]:
@@ -431,7 +467,13 @@ def run(ck: Check):
             table = {tuple(p): tuple(h) for p, h in tabs[0].items()}
             if len(set(table.values())) == len(table):
                 raise MachineryError("collision injection requested but the hash table has no collision")
-        for inplace, budget in plan(ck, kind, tol, collide):
+        fx = None
+        if selfupd:
+            tabs = [v[1] for v in res[f"impl-{name(c)}"].printed() if isinstance(v, tuple) and v and v[0] == "FX"]
+            if not tabs:
+                raise MachineryError("the specification did not print the state update FX")
+            fx = {int(i): int(j) for i, j in (tabs[0].items() if isinstance(tabs[0], dict) else enumerate(tabs[0], 1))}
+        for inplace, budget in plan(ck, kind, tol, collide, selfupd):
             sel = paths
             if budget is not None and len(paths) > budget:
                 sel = [paths[i] for i in sorted(rng.sample(range(len(paths)), budget))]
@@ -440,6 +482,7 @@ def run(ck: Check):
                 rjobs.append({"config": c, "kind": kind, "tol": tol, "inplace": inplace, "paths": ch,
                               "bounds": b, "work": str(ck.work), "tag": f"{name(c)}-{len(rjobs)}",
                               "first_id": first_id, "entries_every_step": ck.thorough, "hash_table": table,
+                              "fx": fx, "flavour": "selfupd" if selfupd else ("inplace" if inplace else "fresh"),
                               "seed": ck.seed * 100003 + len(rjobs), "keep_conforming": n_sample // len(chs) + 1})
                 first_id += len(ch)
     ck.extra["timing"]["graphs_tours_s"] = round(time.time() - t0, 1)
@@ -465,7 +508,7 @@ def run(ck: Check):
         if out["sample"] and c not in samples:
             samples[c] = out["sample"]
         sig = {"kind": job["kind"], "tolerance": "t" if job["tol"] else "0",
-               "discipline": "inplace" if job["inplace"] else "fresh"}
+               "discipline": job["flavour"]}
         all_traces[c] += out["traces"]
         covered[c] |= set(out["covered"])
         n_steps += out["steps"]
@@ -501,7 +544,7 @@ def run(ck: Check):
     ck.extra["timing"]["tlc_traces_s"] = round(time.time() - t0, 1)
     n_viol = 0
     for c in configs:
-        kind, tol, collide = c
+        kind, tol, collide, selfupd = c
         reached, bad = {}, {}
         for cc, key in tjobs:
             if cc != c:
@@ -524,11 +567,11 @@ def run(ck: Check):
             n_viol += 1
             step = min(s for s, _ in bad[t["id"]])
             clauses = sorted({cl for s, cl in bad[t["id"]] if s == step})
-            var = variants.get((kind, tol, t["inplace"]))
-            explained = var[0] if var and not collide and follow_variant(var[1], var[2], t) else "none"
+            var = None if collide else variant_graph(kind, tol, t["flavour"])
+            explained = var[0] if var and follow_variant(var[1], var[2], t) else "none"
             for clause in clauses:
                 ck.violation(clause, {"kind": kind, "tolerance": "t" if tol else "0",
-                                      "discipline": "inplace" if t["inplace"] else "fresh",
+                                      "discipline": t["flavour"],
                                       "explained_by": explained},
                              {"labels": t["labels"][:step], "events": t["events"][:step],
                               "first_difference_with_DiscCacheImpl": t["drift"], "collisions_injected": collide,
@@ -539,6 +582,7 @@ def run(ck: Check):
     ck.extra["paths_replayed"] = ck.traces
     ck.extra["steps_replayed"] = n_steps
     ck.extra["paths_replayed_with_collision_injection"] = sum(n_paths[c] for c in configs if c[2])
+    ck.extra["paths_replayed_self_coupled_inplace"] = sum(n_paths[c] for c in configs if c[3])
     ck.extra["paths_differing_from_DiscCacheImpl"] = sum(s["paths_differing"] for s in stats.values())
     ck.extra["traces_validated_by_DiscCacheTrace"] = sum(len(v) for v in validated.values())
     ck.extra["traces_with_refuted_clause"] = n_viol
@@ -549,17 +593,20 @@ def run(ck: Check):
         "linearize(execute=False) is only offered right after a call at the same input (its documented precondition)",
         "outputs/Jacobians are identified with lattice points through an uncached twin (value table of G and J)",
         "between two tour paths the cache object is emptied with clear() and reused (building a full cache costs 15-35 ms)",
+        "self-coupled flavour (body updates its input array in place): execution histories only - linearize() re-reads the modified input array, with or without a cache",
         "collision injection: hash_data as imported by base_full_cache/_hdf5_file_singleton is replaced in the worker process by the specification's colliding hash table",
     ]
 
 
-def plan(ck, kind, tol, collide=False):
+def plan(ck, kind, tol, collide=False, selfupd=False):
     """Discipline flavours (inplace?) and number of tour paths executed per configuration (None = the whole
     tour).  The whole tour on the cheap caches, a seeded sample on the caches that go through a manager
     process or an HDF5 file; quick tier: the buffer-reusing discipline only where a group could be kept by
     reference (SimpleCache, local-memory cache)."""
     if kind == "none":
         return [(False, None)]
+    if selfupd:  # small graphs (execution histories): the whole tour but on the HDF5 files in the quick tier
+        return [(False, None if ck.thorough or kind != "hdf5" else 600)]
     if ck.thorough:
         n = {"simple": None, "memLocal": None, "memShared": 15000, "hdf5": 8000}[kind]
         if collide:
